@@ -407,9 +407,18 @@ def forwardRequest (r : Req) : Option UpReq :=
 def preHeaders (closeWhenIdle : Bool) : Hdr :=
   (if closeWhenIdle then [(kConnection, [kClose])] else []) ++ [(kCacheControl, [kNoCachePrivate])]
 
+/-- net/http's client (`shouldClose(…, removeCloseHeader = true)` in `readTransfer`): a response whose `Connection`
+    header contains the token `close` reaches the reverse proxy WITHOUT its `Connection` header (all values), so
+    names listed there are not recognised as connection-listed. Standard library behaviour, modelled. -/
+def transportResponseHeaders (up : Hdr) : Hdr :=
+  if headerValuesContainsToken (up.values kConnection) kClose then up.del kConnection else up
+
+/-- the response header map `transport.RoundTrip` returns, from the header lines the upstream wrote -/
+def upstreamResponseHeaders (upLines : List (Str × Str)) : Hdr := transportResponseHeaders (parseHeaders upLines)
+
 /-- `ReverseProxy.ServeHTTP` after the round trip: status, headers, body (trailers not modelled) -/
 def relayResponse (closeWhenIdle : Bool) (upStatus : Nat) (upLines : List (Str × Str)) (upBody : Str) : Resp :=
-  { status := upStatus, headers := relayHeaders (preHeaders closeWhenIdle) (parseHeaders upLines), body := upBody }
+  { status := upStatus, headers := relayHeaders (preHeaders closeWhenIdle) (upstreamResponseHeaders upLines), body := upBody }
 
 /-! ## gateway-terminated answers -/
 /-- the fields of an apimachinery `StatusError` that decide the answer -/
